@@ -377,3 +377,47 @@ def container_copies_copy_their_members(ctx):
     on one instance's member would otherwise change the other instances and the class"""
     from sa.rules import c03
     c03.copy_without_sharing(ctx)
+
+
+@rule('C09.R2c', min_instances=1)
+def inherited_properties_are_applied_to_a_private_datatype(ctx):
+    """Parameter.clone(properties): `properties` are the merged properties of the class chain; its 'datatype' entry is the
+    datatype OBJECT of the class that declared it, and the entries after it (min, max, unit ...) are applied to whatever
+    datatype the new accessible holds at that moment - so the datatype has to be replaced by a copy BEFORE init(properties)
+    runs (a copy taken afterwards is too late: the declaring class already has the subclass's limits)"""
+    m = ctx.m
+    f = m.method(roles.PARAMETER, 'clone', inherited=False)
+    ctx.analysed(f)
+    cfg = CFG(f.node, m, f.module)
+    p = f.node.args.args[1].arg
+    inits = [c for c in calls_in(f.node) if call_attr(c) == 'init' and c.args and isinstance(c.args[0], ast.Name) and c.args[0].id == p]
+    if not inits:
+        raise AnchorMissing('init(properties) not found in Parameter.clone')
+    # R: the parameter name is re-bound to a dict carrying a copied datatype;  alternatively the datatype is taken out (pop)
+    rebinds = []
+    for v, st, how in local_assigns(f.node, p):
+        if how == 'assign' and isinstance(v, ast.Call) and dotted(v.func) == 'dict':
+            kw = next((k.value for k in v.keywords if k.arg == 'datatype'), None)
+            if isinstance(kw, ast.Call) and call_attr(kw) == 'copy':
+                rebinds.append(st)
+    pops = [c for c in calls_in(f.node) if call_attr(c) == 'pop' and dotted(c.func.value) == p and c.args and isinstance(c.args[0], ast.Constant)
+            and c.args[0].value == 'datatype']
+    R = [i for st in rebinds for i in cfg.node_of(st)] + [i for c in pops for i in cfg.node_of(c)]
+    # G: tests whether there is a datatype at all
+    G = [t.id for t in cfg.nodes if t.kind == 'test' and ('datatype' in src(t.ast)) and ('None' in src(t.ast) or ' in ' in src(t.ast))]
+    for c in inits:
+        ids = cfg.node_of(c)
+        unguarded = set(ids) & cfg.reach([cfg.entry], avoid=set(R) | set(G))
+        covered = bool(R) and not unguarded
+        if covered and G:
+            for g in G:
+                tsucc = [b for b, lab in cfg.succ[g] if lab == 'T']
+                fsucc = [b for b, lab in cfg.succ[g] if lab == 'F']
+                neg = ' is None' in src(cfg.nodes[g].ast) or 'not in' in src(cfg.nodes[g].ast)
+                has_side = fsucc if neg else tsucc
+                covered = covered and all(x in R or not (set(ids) & (cfg.reach([x], avoid=set(R)) | {x})) for x in has_side)
+        ctx.check(covered, f'{f.qualname}:properties applied to a private datatype', c,
+                  'the datatype entry is replaced by a copy before init(properties)',
+                  f'`{src(c)}` applies the merged properties while the new accessible still refers to the datatype object of the declaring class: '
+                  'the datatype properties that follow (e.g. max=5 of an intermediate class) are set on THAT object - defining `class C(B): p = 3` '
+                  'changes the limits that every later subclass of the base class inherits', f)
